@@ -27,7 +27,7 @@ def explore_with(cg, it, fname, mk):
     return it.explore(fname, mk2)
 
 
-def run_caller(cg, B, types, ret='int', depth0=0):
+def run_caller(cg, B, types, ret='int', depth0=0, entry='gen_expr'):
     it = cg.interp()
     it.opaque_fns.discard('has_flonum'); it.opaque_fns.discard('has_ldouble'); it.opaque_fns.discard('is_ldouble_only')
     it.global_init['depth'] = depth0
@@ -47,10 +47,10 @@ def run_caller(cg, B, types, ret='int', depth0=0):
         n.meta['root'] = True
         ctx.root = n
         return [n]
-    res = it.explore('gen_expr', mk)
+    res = it.explore(entry, mk)
     rets = [(ctx, out) for ctx, out in res if out[0] == 'ret']
     if len(rets) != 1:
-        raise Unknown('gen_expr(ND_FUNCALL) on a concrete call has %d returning paths (%r)' % (len(rets), [o[:2] for c, o in res][:3]))
+        raise Unknown(entry + '(ND_FUNCALL) on a concrete call has %d returning paths (%r)' % (len(rets), [o[:2] for c, o in res][:3]))
     ctx = rets[0][0]
     tr = Trace(ctx)
     nodes = linearise(tr)
@@ -173,6 +173,8 @@ def r_caller(cg, B, rep, tier):
                 for depth0 in (0, 1):
                     if depth0 == 1 and not (k == ks[-1] or l == ls[-1]):
                         continue
+                    if t.startswith('u_') and (k, l) != (0, 0):
+                        continue        # the union shapes decide the class merge of overlapping members; register exhaustion is covered by the struct shapes
                     types = ['long'] * k + ['double'] * l + [t, 'int', 'double']
                     key = '%s:ND_FUNCALL:%s-after-%dgp-%dsse/depth%d' % (U, t, k, l, depth0)
                     try:
@@ -315,6 +317,8 @@ def r_callee(cg, B, rep, tier):
     for t in TEST_TYPES:
         for k in ks:
             for l in ls:
+                if t.startswith('u_') and (k, l) != (0, 0):
+                    continue
                 types = ['long'] * k + ['double'] * l + [t, 'int', 'double']
                 key = '%s:emit_text:%s-after-%dgp-%dsse' % (U, t, k, l)
                 try:
@@ -343,6 +347,37 @@ def ret_locs(t):
         else:
             out.append(('sse', sse)); sse += 1
     return out
+
+
+def run_return(cg, B, t):
+    """gen_stmt on `return v;` (v an object of aggregate type t) in a function returning t: (trace, final machine state at the epilogue jump)"""
+    it = cg.interp()
+    it.opaque_fns.discard('has_flonum'); it.opaque_fns.discard('has_ldouble'); it.opaque_fns.discard('is_ldouble_only')
+    it.rec_limit = 64
+
+    def mk(ctx):
+        it.ctx = ctx
+        fty = Obj('Type', lazy=False, label='fty'); fty.fields.update({'kind': B.E['TY_FUNC'], 'return_ty': B.ty(it, t)})
+        hp = Obj('Obj', lazy=False, label='hidden'); hp.fields.update({'offset': -8, 'ty': B.ty(it, 'ptr')})
+        fn = Obj('Obj', lazy=False, label='fn'); fn.fields.update({'name': 'f', 'ty': fty, 'params': hp})
+        ctx.globals['current_fn'] = fn
+        n = Obj('Node', lazy=False, label='ret'); n.fields.update({'kind': B.E['ND_RETURN'], 'tok': Obj('Token', lazy=True, label='tok')})
+        v = Obj('Node', lazy=False, label='val'); v.fields.update({'kind': B.E['ND_VAR'], 'ty': fty.fields['return_ty'], 'tok': n.fields['tok']})
+        n.fields['lhs'] = v
+        n.meta['root'] = True
+        ctx.root = n
+        return [n]
+    res = [(c, o) for c, o in it.explore('gen_stmt', mk) if o[0] == 'ret']
+    if len(res) != 1:
+        raise Unknown('gen_stmt(ND_RETURN) has %d returning paths' % len(res))
+    tr = Trace(res[0][0])
+    nodes = linearise(tr)
+
+    def pseudo(s_, n):
+        s_.events.append(('eval', n[1], 'val'))
+        s_.reg['rax'] = ('r', 'val', 64)
+    finals = Machine().run(nodes, lambda s_: None, pseudo)
+    return tr, finals[0]
 
 
 def r_returns(cg, B, rep):
@@ -389,37 +424,10 @@ def r_returns(cg, B, rep):
             rep.ob('R06.5', key + ':caller-result-address', s.reg['rax'] == ('addrof', 64, ('addr', ('init', 'rbp'), -64)), 'the value of the call expression is %r, expected the address of the result object' % (s.reg['rax'],), where=where, facts=facts)
         # ---- callee side: return statement
         keyc = '%s:ND_RETURN:returns-%s' % (U, t)
-        it = cg.interp()
-        it.opaque_fns.discard('has_flonum'); it.opaque_fns.discard('has_ldouble'); it.opaque_fns.discard('is_ldouble_only')
-        it.rec_limit = 64
-        box = {}
-
-        def mk(ctx, t=t):
-            it.ctx = ctx
-            fty = Obj('Type', lazy=False, label='fty'); fty.fields.update({'kind': B.E['TY_FUNC'], 'return_ty': B.ty(it, t)})
-            hp = Obj('Obj', lazy=False, label='hidden'); hp.fields.update({'offset': -8, 'ty': B.ty(it, 'ptr')})
-            fn = Obj('Obj', lazy=False, label='fn'); fn.fields.update({'name': 'f', 'ty': fty, 'params': hp})
-            ctx.globals['current_fn'] = fn
-            n = Obj('Node', lazy=False, label='ret'); n.fields.update({'kind': B.E['ND_RETURN'], 'tok': Obj('Token', lazy=True, label='tok')})
-            v = Obj('Node', lazy=False, label='val'); v.fields.update({'kind': B.E['ND_VAR'], 'ty': fty.fields['return_ty'], 'tok': n.fields['tok']})
-            n.fields['lhs'] = v
-            n.meta['root'] = True
-            ctx.root = n
-            return [n]
-        res = [(c, o) for c, o in it.explore('gen_stmt', mk) if o[0] == 'ret']
-        if len(res) != 1:
-            rep.undecided('R06.5', keyc, 'gen_stmt(ND_RETURN) has %d returning paths' % len(res), where=where); continue
-        tr = Trace(res[0][0])
-        nodes = linearise(tr)
-
-        def pseudo(s_, n):
-            s_.events.append(('eval', n[1], 'val'))
-            s_.reg['rax'] = ('r', 'val', 64)
         try:
-            finals = Machine().run(nodes, lambda s_: None, pseudo)
+            tr, s2 = run_return(cg, B, t)
         except Unknown as e:
             rep.undecided('R06.5', keyc, str(e), where=where); continue
-        s2 = finals[0]
         facts = {'trace': tr.text()}
         src = ('addr', ('r', 'val', 64), 0)
         if locs == 'X87':
@@ -535,7 +543,9 @@ def r_reg_class(P, B, rep):
     seen = 0
     for tn in names:
         cls = classify(tn)
-        if tn in STRUCTS:
+        if tn.startswith('u_'):
+            tag = 'union-%s-%s' % (tn, '-'.join(cls))
+        elif tn in STRUCTS:
             tag = 'struct-' + '-'.join(cls)
         else:
             tag = tn
@@ -569,7 +579,7 @@ def r_reg_class(P, B, rep):
         if isinstance(bad, str) and bad.startswith('undecided:'):
             rep.undecided('R06.4', 'parse.c:primary:reg-class/%s' % tag, bad[10:], where=where); continue
         rep.ob('R06.4', 'parse.c:primary:reg-class/%s' % tag, bad is None,
-               'va_arg(ap, %s) with __builtin_reg_class = %r: %s (the caller passes the type as %s; psABI 3.5.7)' % (tn if tn not in STRUCTS else 'struct{%s}' % ','.join(t for t, o in STRUCTS[tn][2]), got, bad, '/'.join(cls)), where=where)
+               'va_arg(ap, %s) with __builtin_reg_class = %r: %s (the caller passes the type as %s; psABI 3.5.7)' % (tn if tn not in STRUCTS else '%s{%s}' % ('union' if tn.startswith('u_') else 'struct', ','.join(t for t, o in STRUCTS[tn][2])), got, bad, '/'.join(cls)), where=where)
     if seen < 12:
         rep.undecided('R06.4', 'parse.c:primary:reg-class', 'only %d types could be evaluated' % seen, where=where)
 
